@@ -8,6 +8,10 @@ if os.environ.get('PYTHONHASHSEED') != '0':
     os.execv(sys.executable, [sys.executable] + sys.argv)
 
 sys.path.insert(0, os.path.dirname(os.path.abspath(__file__)))
+# VERIF_REPO=<dir> runs the same checks against another checkout (a scratch worktree holding a
+# candidate change); registered commands never set it and so always execute /repo's working tree.
+if os.environ.get('VERIF_REPO'):
+    sys.path.insert(0, os.environ['VERIF_REPO'])
 sys.dont_write_bytecode = True
 
 from vf import runner  # noqa: E402
